@@ -83,6 +83,7 @@ type Options struct {
 	Verbose       bool
 	Deadline      time.Time
 	UFMul         bool // hash multiplication as uninterpreted function
+	NoPhiConc     bool // do not concretise integer loop variables of the code under test
 	NonTerm       bool // exhausting the step budget / loop cap is a (candidate) non-termination violation
 }
 
@@ -1003,7 +1004,7 @@ func (ex *Executor) jump(st *State, fr *Frame, to *ssa.BasicBlock) {
 	}
 	fr.ip = len(phis)
 	// concretise symbolic index-like loop variables of the code under test
-	if fr.info.loopHd[to] && !fr.info.harness {
+	if fr.info.loopHd[to] && !fr.info.harness && !ex.opt.NoPhiConc {
 		for _, ph := range phis {
 			t, ok := fr.regs[fr.info.idx[ph]].(*Term)
 			if !ok || t.IsConst() {
